@@ -77,8 +77,16 @@ impl<T: Float + core::fmt::Display> core::fmt::Display for KahanSum<T> {
 
 impl<T: Float> core::ops::AddAssign<Self> for KahanSum<T> {
     fn add_assign(&mut self, rhs: Self) {
-        kahan_add(&mut self.sum, rhs.sum, &mut self.compensation);
-        kahan_add(&mut self.sum, rhs.compensation, &mut self.compensation);
+        // The compensated step only recovers the rounding error when the running sum dominates the
+        // addend: accumulate the register of smaller magnitude into the larger one.
+        let (mut acc, addend) = if self.sum.abs() >= rhs.sum.abs() {
+            (*self, rhs)
+        } else {
+            (rhs, *self)
+        };
+        kahan_add(&mut acc.sum, addend.sum, &mut acc.compensation);
+        kahan_add(&mut acc.sum, addend.compensation, &mut acc.compensation);
+        *self = acc;
     }
 }
 
